@@ -169,19 +169,15 @@ def key_of(r):
 
 
 def execute(ctx, cases):
-    pool = multiprocessing.get_context("fork").Pool(ctx.ncpu)
+    from harness.common import pool_map
     exe_root = os.path.join(ctx.scratch, "fs")
     os.makedirs(exe_root, exist_ok=True)
-    try:
-        jobs = [(i, ch, exe_root, None) for i, ch in enumerate(chunks(cases, ctx.ncpu * 4)) if ch]
-        n = 0
-        bad = []
-        for cnt, b in pool.imap_unordered(_worker, jobs):
-            n += cnt
-            bad.extend(b)
-    finally:
-        pool.close()
-        pool.join()
+    jobs = [(i, ch, exe_root, None) for i, ch in enumerate(chunks(cases, ctx.ncpu * 8)) if ch]
+    n = 0
+    bad = []
+    for cnt, b in pool_map(ctx, _worker, jobs):
+        n += cnt
+        bad.extend(b)
     return n, bad
 
 
